@@ -979,3 +979,180 @@ func (c *Ctx) rulesR4clone() {
 		c.undecided(fmt.Sprintf("C20.clone: State has only %d slice fields (expected >= 5)", n))
 	}
 }
+
+// rulesR4safeclose: C13.safeclose
+func (c *Ctx) rulesR4safeclose() {
+	c.rule("C13.safeclose", "in pkg/machine every channel collected from a Subscriptions.Process* call is closed with closeSafe, never with the close builtin: Subscriptions.dispose closes the channels of the bindings that are still listed without unlisting them, so a collector that runs after (or while) a disposal returns a channel that is already closed and close() panics in the mutating goroutine")
+	sub := c.namedType(pm, "Subscriptions")
+	if sub == nil {
+		return
+	}
+	fromCollector := func(v ssa.Value) (string, bool) {
+		name := ""
+		ok := derives(v, func(x ssa.Value) bool {
+			call, isCall := x.(*ssa.Call)
+			if !isCall {
+				return false
+			}
+			g := call.Call.StaticCallee()
+			if g == nil || g.Signature.Recv() == nil || namedOf(g.Signature.Recv().Type()) == nil || namedOf(g.Signature.Recv().Type()).Obj() != sub.Obj() {
+				return false
+			}
+			if !strings.HasPrefix(g.Name(), "Process") {
+				return false
+			}
+			name = g.Name()
+			return true
+		})
+		return name, ok
+	}
+	n := 0
+	for _, f := range c.Funcs {
+		tf := topFunc(f)
+		if tf.Pkg == nil || relPkg(tf.Pkg.Pkg.Path()) != pm {
+			continue
+		}
+		if recv := tf.Signature.Recv(); recv != nil && namedOf(recv.Type()) != nil && namedOf(recv.Type()).Obj() == sub.Obj() {
+			continue
+		}
+		cnt := 0
+		for _, b := range f.Blocks {
+			for _, ins := range b.Instrs {
+				ci, ok := ins.(ssa.CallInstruction)
+				if !ok || len(ci.Common().Args) != 1 {
+					continue
+				}
+				raw := false
+				if bi, ok := ci.Common().Value.(*ssa.Builtin); ok && bi.Name() == "close" {
+					raw = true
+				} else if calleeName(ci.Common()) != "closeSafe" {
+					continue
+				}
+				arg := ci.Common().Args[0]
+				var src ssa.Value
+				if u, ok := arg.(*ssa.UnOp); ok && u.Op == token.MUL {
+					if ia, ok := u.X.(*ssa.IndexAddr); ok {
+						src = ia.X
+					}
+				}
+				if src == nil {
+					continue
+				}
+				name, ok := fromCollector(src)
+				if !ok {
+					continue
+				}
+				n++
+				cnt++
+				c.check(!raw, "C13.safeclose", fmt.Sprintf("%s: channels of %s are closed with closeSafe%s", funcKey(f), name, nth(cnt-1)), ins.Pos(),
+					"the channels collected by "+name+" are closed with the close builtin: after a concurrent disposal has closed the listed bindings this panics with 'close of closed channel'")
+			}
+		}
+	}
+	if n < 3 {
+		c.undecided(fmt.Sprintf("C13.safeclose: only %d close sites of collected channels found in pkg/machine (expected >= 3)", n))
+	}
+}
+
+// rulesR4endsend: C13.endsend
+func (c *Ctx) rulesR4endsend(la *LockAnalysis) {
+	c.rule("C13.endsend", "every send on Machine.handlerEnd is made with loopLock held and is dominated by a check that the machine is not disposed: doDispose closes handlerEnd under loopLock right after marking the machine disposed, so a handler that returns after the disposal would otherwise send on the closed channel (a panic in the handler goroutine, fatal when PanicToException is off)")
+	fEnd := c.field(pm, "Machine", "handlerEnd")
+	fDisposed := c.field(pm, "Machine", "disposed")
+	if fEnd == nil || fDisposed == nil {
+		c.undecided("C13.endsend: Machine.handlerEnd / disposed not found")
+		return
+	}
+	const lk = "pkg/machine.Machine.loopLock"
+	n := 0
+	for _, f := range c.Funcs {
+		if topFunc(f).Pkg == nil || relPkg(topFunc(f).Pkg.Pkg.Path()) != pm {
+			continue
+		}
+		for _, b := range f.Blocks {
+			for _, ins := range b.Instrs {
+				isSend := false
+				switch x := ins.(type) {
+				case *ssa.Send:
+					isSend = loadOfField(x.Chan) == fEnd
+				case *ssa.Select:
+					for _, st := range x.States {
+						if st.Dir == types.SendOnly && loadOfField(st.Chan) == fEnd {
+							isSend = true
+						}
+					}
+				}
+				if !isSend {
+					continue
+				}
+				n++
+				held := len(la.heldAt(ins)) > 0
+				for _, hr := range la.heldAt(ins) {
+					if _, ok := hr.held[lk]; !ok {
+						held = false
+					}
+				}
+				c.check(held, "C13.endsend", fmt.Sprintf("%s: send on handlerEnd#%d holds loopLock", funcKey(f), n), ins.Pos(), "the send is not made under loopLock, the lock under which doDispose closes the channel")
+				flagged := false
+				for _, g := range guardsOf(b) {
+					if gAtomicLoadTruth("!disposed", fDisposed, false).Match(g) {
+						flagged = true
+					}
+				}
+				c.check(flagged, "C13.endsend", fmt.Sprintf("%s: send on handlerEnd#%d is skipped once disposed", funcKey(f), n), ins.Pos(), "no dominating check of Machine.disposed: after doDispose closed the channel the send panics")
+			}
+		}
+	}
+	if n < 1 {
+		c.undecided("C13.endsend: no send on Machine.handlerEnd found")
+	}
+}
+
+// rulesR4errmulti: C15.errmulti
+func (c *Ctx) rulesR4errmulti() {
+	c.rule("C15.errmulti", "an error state of the supervisor whose State handler consumes the event's arguments (Supervisor.Err<X>State reading e.Args: it counts the error for the worker named there and decides on the kill) is declared Multi in SupervisorSchema: the State handler of a plain state does not run for an Add that finds the state already active, so errors reported while the previous one is still active are not counted, and the worker that exceeds WorkerErrKill is never killed")
+	sup := c.namedType(pn, "Supervisor")
+	if sup == nil {
+		c.undecided("C15.errmulti: Supervisor not found")
+		return
+	}
+	var schema *vSchema
+	var spos token.Pos
+	se := c.newSchemaEval()
+	for _, sv := range c.schemaVars() {
+		if relPkg(sv.pkg.PkgPath) == "pkg/node/states" && sv.obj.Name() == "SupervisorSchema" {
+			if sc, ok := se.evalObj(sv.obj).(*vSchema); ok {
+				schema, spos = sc, sv.pos
+			}
+		}
+	}
+	if schema == nil {
+		c.undecided("C15.errmulti: pkg/node/states.SupervisorSchema cannot be evaluated")
+		return
+	}
+	fArgs := c.field(pm, "Event", "Args")
+	n := 0
+	for _, f := range c.Funcs {
+		if f.Parent() != nil || f.Signature.Recv() == nil || namedOf(f.Signature.Recv().Type()) != sup {
+			continue
+		}
+		name := f.Name()
+		if !strings.HasPrefix(name, "Err") || !strings.HasSuffix(name, "State") {
+			continue
+		}
+		state := strings.TrimSuffix(name, "State")
+		st := schema.m[state]
+		if st == nil {
+			continue
+		}
+		if fArgs == nil || !funcReadsField(f, fArgs) {
+			continue
+		}
+		n++
+		c.check(st.Multi, "C15.errmulti", "SupervisorSchema: "+state+" (handled per event by Supervisor."+name+") is Multi", spos,
+			state+" is not Multi: Supervisor."+name+" runs only for the first of several errors that overlap, the others are never counted")
+	}
+	if n < 1 {
+		c.undecided("C15.errmulti: no Supervisor.Err*State handler reading e.Args found")
+	}
+}
